@@ -140,5 +140,29 @@ def features():
     return t
 
 
+def names():
+    """third tree: type names that stress the name -> module -> attribute mapping: acronyms, digits, and names whose
+    snake_case module collides with a static submodule name of the package (data, encrypt, protocol, net, map, pub, client, server)"""
+    t = empty_tree()
+    t['']['enums'] += [{'name': 'NPCType', 'type': 'char', 'values': [('Friendly', '0'), ('Aggressive', '1')]}]
+    t['']['structs'] += [{'name': 'Vector2D', 'body': [F('x', 'short'), F('y', 'short')]},
+                         {'name': 'NPCPosition', 'body': [F('id', 'char'), F('kind', 'NPCType'), F('at', 'Vector2D')]},
+                         {'name': 'Data', 'body': [F('a', 'char')]},
+                         {'name': 'Client', 'body': [F('d', 'Data')]},
+                         {'name': 'Server', 'body': [F('c', 'Client')]}]
+    # (a type whose module name equals a sibling DIRECTORY of the generated package - Net/Map/Pub at the root, Client/Server
+    #  in net, Server in pub - is shadowed by that directory: see the known finding of C18)
+    t['pub']['structs'] += [{'name': 'EIFData', 'body': [F('v', 'Vector2D'), F('name', 'string')]},
+                            {'name': 'Protocol', 'body': [F('version', 'char')]},
+                            {'name': 'Encrypt', 'body': [F('key', 'char')]},
+                            {'name': 'Net', 'body': [F('s', 'Server')]}]
+    t['map']['structs'] += [{'name': 'Pub', 'body': [F('p', 'Protocol')]},
+                            {'name': 'HTTPServer2Go', 'body': [F('port', 'short'), F('pub', 'Pub'), F('net', 'Net')]}]
+    t['net']['structs'] += [{'name': 'Map', 'body': [F('m', 'char'), F('e', 'EIFData')]}]
+    t['net/client']['packets'] += [{'family': 'Talk', 'action': 'Init', 'body': [F('pos', 'NPCPosition')]}]
+    t['net/server']['packets'] += [{'family': 'Welcome', 'action': 'Reply', 'body': [F('m', 'Map'), F('h', 'HTTPServer2Go')]}]
+    return t
+
+
 def corpus():
-    return [('mini-eo-core', core()), ('mini-eo-features', features())]
+    return [('mini-eo-core', core()), ('mini-eo-features', features()), ('mini-eo-names', names())]
